@@ -157,6 +157,27 @@ Proof.
 Qed.
 Print Assumptions c11_esm_refund.
 
+(* ... and that hook cannot fail: in ANY reachable state with an open generation-1 auction whose
+   module account was not overdrawn in the bid denom when the auction started and (surplus) holds the
+   lot, the hook under the emergency shutdown succeeds - so with c11_esm_refund the standing bidder
+   IS refunded in the first block after the shutdown *)
+Theorem c11_esm_hook_succeeds : forall v bd ld lot b0 now0 fac d bs l0 ops now tm,
+  bd <> ld -> 0 <= b0 -> Forall valid_op ops ->
+  let s := run (init v bd ld lot b0 now0 fac d bs, l0) ops in
+  is_v1 (var (fst s)) = true -> ended (fst s) = false ->
+  0 <= l0 MOD (bid_denom (fst s)) ->
+  (var (fst s) = V1S -> 0 <= sell (fst s) <= l0 MOD (lot_denom (fst s))) ->
+  exists s', step s (TickEsm now tm) = Ok s' /\ status (fst s') = 3.
+Proof.
+  intros v bd ld lot b0 now0 fac d bs l0 ops now tm Hd Hb Hv s Hv1 En Hm Hlot.
+  destruct (run_inv l0 ops _ (inv_init v bd ld lot b0 now0 fac d bs l0 Hd Hb) Hv) as [Hdd HI].
+  fold s in Hdd, HI. destruct s as [a l]. cbn [step fst snd] in *.
+  destruct (tick_esm_progress l0 a l now tm Hdd (inv3_not_ended l0 a l HI En) Hv1 Hm Hlot) as [[a' l'] T].
+  exists (a', l'). split; [exact T|].
+  exact (proj1 (tick_esm_facts l0 a l now tm a' l' Hdd HI En Hv1 T)).
+Qed.
+Print Assumptions c11_esm_hook_succeeds.
+
 (* the executable predicates that the runner evaluates on the implementation's observations after an
    emergency-shutdown close are consequences of the invariant *)
 Theorem c11_esm_predicates : forall v bd ld lot b0 now fac d bs l0 ops,
@@ -204,6 +225,13 @@ Qed.
 (* ... and a generation-1 debt auction (bidders pay 1000 of denom 1 for a falling lot of denom 0): the
    standing bidder 1 gets its 1000 back, nothing is minted, collector and net fees are where they
    were; without any bid the hook just removes the auction *)
+(* the hypotheses of c11_esm_hook_succeeds are met by the state before the shutdown above *)
+Example c11_esm_hook_succeeds_nonvacuous :
+  let s1 := run (init V1S 0 1 1000 0 0 100000000000000000 3600 300, esm_l0) (firstn 2 esm_ops) in
+  is_v1 (var (fst s1)) = true /\ ended (fst s1) = false /\ 0 <= esm_l0 MOD (bid_denom (fst s1)) /\
+  (var (fst s1) = V1S -> 0 <= sell (fst s1) <= esm_l0 MOD (lot_denom (fst s1))) /\ sell (fst s1) = 1000.
+Proof. vm_compute. repeat split; intros; discriminate. Qed.
+
 Example c11_esm_debt_nonvacuous :
   let l0 : ledger := fun a d => if (0 <=? a) && (d =? 1) then 50000 else 0 in
   let s := run (init V1D 1 0 777 1000 0 100000000000000000 3600 300, l0)
